@@ -409,6 +409,70 @@ func main() {
 				}
 			}
 		}
+		// typed vs generic for plain clipping: where the box meets the geometry's bound, Geometry(box, g) is the typed
+		// result for g's kind (a single member unwrapped, nothing = nil), for boxes around, inside and across the data
+		for _, sb := range []orb.Bound{box, {Min: orb.Point{-10, -10}, Max: orb.Point{10, 10}}, {Min: orb.Point{0.25, 0.25}, Max: orb.Point{1.75, 1.75}}, {Min: orb.Point{0.25, -1}, Max: orb.Point{3, 3}}} {
+			var want, got orb.Geometry
+			_, p1 := try(func() interface{} {
+				if g == nil || !sb.Intersects(g.Bound()) {
+					return nil
+				}
+				switch v := orb.Clone(g).(type) {
+				case orb.MultiPoint:
+					if m := clip.MultiPoint(sb, v); len(m) == 1 {
+						want = m[0]
+					} else if m != nil {
+						want = m
+					}
+				case orb.LineString:
+					if m := clip.LineString(sb, v); len(m) == 1 {
+						want = m[0]
+					} else if len(m) > 1 {
+						want = m
+					}
+				case orb.MultiLineString:
+					if m := clip.MultiLineString(sb, v); len(m) == 1 {
+						want = m[0]
+					} else if m != nil {
+						want = m
+					}
+				case orb.Ring:
+					if m := clip.Ring(sb, v); m != nil {
+						want = m
+					}
+				case orb.Polygon:
+					if m := clip.Polygon(sb, v); m != nil {
+						want = m
+					}
+				case orb.MultiPolygon:
+					if m := clip.MultiPolygon(sb, v); len(m) == 1 {
+						want = m[0]
+					} else if m != nil {
+						want = m
+					}
+				case orb.Collection:
+					if m := clip.Collection(sb, v); len(m) == 1 {
+						want = m[0]
+					} else if m != nil {
+						want = m
+					}
+				case orb.Bound:
+					if m := clip.Bound(sb, v); !m.IsEmpty() {
+						want = m
+					}
+				case orb.Point:
+					want = v
+				}
+				return nil
+			})
+			_, p2 := try(func() interface{} { got = clip.Geometry(sb, orb.Clone(g)); return nil })
+			if p1 != "" || p2 != "" {
+				continue // panics are reported above
+			}
+			if refgeom.Struct(got) != refgeom.Struct(want) {
+				c.Failf("typed-vs-generic", "clip.Geometry(%v, %s) = %v, the typed function gives %v", sb, desc, got, want)
+			}
+		}
 		// typed vs generic for tile covers: Geometry(g) is what the function for g's kind returns (degenerate
 		// one-vertex lines and rings included), and a collection's cover is the union of its members' covers
 		for _, z := range []maptile.Zoom{0, 3, 12} {
